@@ -8,6 +8,10 @@ PROP="$1"
 cd "$(dirname "$0")"
 [ -f evidence/$PROP.json ] || exit 0
 VERIF_REPO="${2:-/repo}" python3 tools/mutants.py --prop "$PROP" --only-prop --write --jobs 14 > evidence/mutants.$PROP.log 2>&1 || true
+# behaviour-preserving corpora for this property: 120 refactorings written by independent agents (benign/) and the
+# whole-body extraction of every function (bin/wrapgen); every one must leave this check silent
+ONLY_PROP="$PROP" SUMMARY_JSON="evidence/benign.$PROP.tmp.json" VERIF_REPO="${2:-/repo}" python3 tools/benignmatrix.py > evidence/benign.$PROP.tmp.log 2>&1 || true
+ONLY_PROP="$PROP" SUMMARY_JSON="evidence/wrap.$PROP.tmp.json" JOBS=14 VERIF_REPO="${2:-/repo}" python3 tools/wrapmatrix.py > evidence/wrap.$PROP.tmp.log 2>&1 || true
 python3 - "$PROP" <<'PY'
 import json, sys, os
 p = sys.argv[1]
@@ -30,6 +34,18 @@ ev["coverage"]["sensitivity"] = {
     "results": [{k: r.get(k) for k in ("id", "status", "detail", "note")} for r in m.get("results", [])],
     "seeded_changes_reported_by_this_check (last tools/seedmatrix.py run)": seeds,
 }
+for name, key in (("benign", "refactorings_by_independent_agents"), ("wrap", "whole_body_extraction_of_every_function")):
+    try:
+        ev["coverage"]["sensitivity"][key] = json.load(open("evidence/%s.%s.tmp.json" % (name, p)))
+    except Exception as e:
+        ev["coverage"]["sensitivity"][key] = {"error": str(e)}
+    for ext in ("json", "log"):
+        try:
+            os.remove("evidence/%s.%s.tmp.%s" % (name, p, ext))
+        except OSError:
+            pass
 json.dump(ev, open("evidence/%s.json" % p, "w"), indent=1)
+b, w = ev["coverage"]["sensitivity"]["refactorings_by_independent_agents"], ev["coverage"]["sensitivity"]["whole_body_extraction_of_every_function"]
+print("%s thorough: behaviour-preserving corpora: refactorings %s/%s silent, whole-body extractions %s/%s silent" % (p, b.get("silent"), b.get("changes"), w.get("silent"), w.get("functions")))
 print("%s thorough: sensitivity corpus: %s applicable, %s detected, missed %s, benign silent %s, false alarms %s" % (p, m.get("applicable"), m.get("detected"), m.get("missed"), m.get("benign_silent"), m.get("false_alarms")))
 PY
